@@ -530,6 +530,68 @@ def arg_spec(spec):
     raise TranslatorError(f"call specification {spec}")
 
 
+def circuit_unitary_rule():
+    """`QubitCircuit._get_gate_unitary(gate)` (circuit.py), the matrix `propagators` / the simulator use for a gate: for a
+    library gate it must be exactly `qobj = gate.get_compact_qobj()` — the gate's own matrix — and neither it nor
+    `propagators` may write any state of the circuit (no assignment to / through `self`), so the matrix reported for a gate
+    cannot depend on the other gates the circuit holds.  -> the rule as a string"""
+    path = os.path.join(REPO, "src", "qutip_qip", "circuit", "circuit.py")
+    tree = ast.parse(open(path).read())
+    cls = next((n for n in tree.body if isinstance(n, ast.ClassDef) and n.name == "QubitCircuit"), None)
+    if cls is None:
+        raise TranslatorError("class QubitCircuit not found")
+    meth = {m.name: m for m in cls.body if isinstance(m, ast.FunctionDef)}
+    for name in ("_get_gate_unitary", "propagators"):
+        if name not in meth:
+            raise TranslatorError(f"QubitCircuit.{name} not found")
+
+    def writes_self(fn):
+        for n in ast.walk(fn):
+            targets = []
+            if isinstance(n, ast.Assign):
+                targets = n.targets
+            elif isinstance(n, (ast.AugAssign, ast.AnnAssign)):
+                targets = [n.target]
+            elif isinstance(n, ast.Delete):
+                targets = n.targets
+            for t in targets:
+                for x in ast.walk(t):
+                    if isinstance(x, ast.Name) and x.id == "self":
+                        return True
+            if isinstance(n, ast.Call) and isinstance(n.func, ast.Attribute) and n.func.attr in (
+                    "setdefault", "update", "append", "pop", "clear", "insert", "extend", "add", "__setitem__", "setattr"):
+                if any(isinstance(x, ast.Name) and x.id == "self" for x in ast.walk(n.func.value)):
+                    return True
+            if isinstance(n, ast.Call) and getattr(n.func, "id", None) == "setattr":
+                return True
+        return False
+
+    g = meth["_get_gate_unitary"]
+    if [a.arg for a in g.args.args] != ["self", "gate"]:
+        raise TranslatorError("QubitCircuit._get_gate_unitary: signature")
+    body = [st for st in g.body if not (isinstance(st, ast.Expr) and isinstance(st.value, ast.Constant))]
+    ok = len(body) == 2 and isinstance(body[0], ast.If) and isinstance(body[1], ast.Return) \
+        and getattr(body[1].value, "id", None) == "qobj"
+    if ok:
+        t = body[0].test
+        ok = isinstance(t, ast.Compare) and len(t.ops) == 1 and isinstance(t.ops[0], ast.In) \
+            and ast.unparse(t.left) == "gate.name" and ast.unparse(t.comparators[0]) == "self.user_gates"
+        els = body[0].orelse
+        ok = ok and len(els) == 1 and isinstance(els[0], ast.Assign) and ast.unparse(els[0]) == "qobj = gate.get_compact_qobj()"
+    if not ok:
+        raise TranslatorError("QubitCircuit._get_gate_unitary: not `if gate.name in self.user_gates: … else: qobj = "
+                              "gate.get_compact_qobj()`; `return qobj`")
+    if writes_self(g) or writes_self(meth["propagators"]):
+        raise TranslatorError("QubitCircuit._get_gate_unitary / propagators write state of the circuit")
+    calls = [n for n in ast.walk(meth["propagators"]) if isinstance(n, ast.Assign)
+             and ast.unparse(n) == "qobj = self._get_gate_unitary(gate)"]
+    loops = [n for n in ast.walk(meth["propagators"]) if isinstance(n, ast.For) and ast.unparse(n.target) == "gate"
+             and any(c in ast.walk(n) for c in calls)]
+    if not calls or not loops:
+        raise TranslatorError("QubitCircuit.propagators: `for gate in …: qobj = self._get_gate_unitary(gate)` not found")
+    return "gate.get_compact_qobj()"
+
+
 def lean_bool(b):
     return "true" if b else "false"
 
@@ -557,6 +619,9 @@ def render(tables=None):
             f'     argRequired := {lean_bool(e["argRequired"])}, tgArgRequired := {lean_bool(e["tgArgRequired"])}, '
             f'fixedGuard := {lean_bool(e["fixedGuard"])}, argSpec := {a}, spec := "{e["spec"]}" }}')
     L.append("   " + ",\n   ".join(rows) + "]\n")
+    L.append("/-- `QubitCircuit._get_gate_unitary(gate)` for a library gate (extracted from circuit.py; the method and\n"
+             "`propagators` write no state of the circuit) -/")
+    L.append(f'def circuitGateUnitary : String := "{circuit_unitary_rule()}"\n')
     L.append("end QipVerif.Gen.G")
     return "\n".join(L) + "\n", d
 
